@@ -555,6 +555,9 @@ func runTier(id string, cfg PropCfg, bin, tier string, known Known, start time.T
 			seen[l] = true
 		}
 	}
+	for _, n := range harnessNotes {
+		say("note: %s", n)
+	}
 	cov := ev["coverage"].(map[string]interface{})
 	say("property=%s tier=%s seed=%d evaluations=%v distinct_nontrivial=%v violations=%d wall=%.1fs", id, tier, seed, cov["evaluations"], cov["distinct_nontrivial"], violations, time.Since(start).Seconds())
 	if exit == 1 {
